@@ -60,6 +60,8 @@ func (s gateStep) String() string {
 	switch s.op {
 	case 'p':
 		return fmt.Sprintf("p:%d", s.a)
+	case 'u':
+		return fmt.Sprintf("u:%d", s.a)
 	case 'c':
 		return "c"
 	}
@@ -93,6 +95,12 @@ func gateParse(op string) ([]gateStep, bool) {
 				return nil, false
 			}
 			out = append(out, gateStep{op: 'p', a: v})
+		case len(p) == 2 && p[0] == "u": // SetVbUUID(U): the open-stream callback of a re-opened stream (possibly on a new branch)
+			v, ok := num(p[1])
+			if !ok {
+				return nil, false
+			}
+			out = append(out, gateStep{op: 'u', a: v})
 		case len(p) == 2 && p[0] == "a" && p[1] == "os":
 			out = append(out, gateStep{op: 'a', kind: "os"})
 		case len(p) == 4 && p[0] == "a" && p[1] == "mk":
@@ -254,9 +262,11 @@ func gateExec(steps []gateStep, settle time.Duration) (string, bool) {
 				late = true
 				out = append(out, "?")
 			}
-		case 'p', 'c':
+		case 'p', 'c', 'u':
 			if s.op == 'p' {
 				obs.SetPersistSeqNo(gocbcore.SeqNo(s.a))
+			} else if s.op == 'u' {
+				obs.SetVbUUID(gocbcore.VbUUID(s.a))
 			} else {
 				cmu.Lock()
 				closed = true
@@ -435,6 +445,8 @@ func (st *gateGenState) apply(s gateStep) {
 			st.persist = s.a
 		}
 		release()
+	case 'u':
+		release() // the threshold is untouched: nothing is released, nothing starts to wait
 	case 'c':
 		st.closed = true
 		release()
@@ -578,6 +590,14 @@ func gateGen(r *Rng) ([]gateStep, []string) {
 				tags["close-idle"] = true
 			}
 			emit(gateStep{op: 'c'})
+		case c >= 94 && c < 98:
+			// the stream was re-opened (possibly on another history branch): SetVbUUID must leave the persisted threshold alone -
+			// covered events that arrive afterwards are still delivered, nothing that waits is released
+			emit(gateStep{op: 'u', a: uint64(1 + r.Intn(5))})
+			tags["vbuuid-set"] = true
+			if st.persist > 0 {
+				tags["vbuuid-set-with-threshold"] = true
+			}
 		}
 	}
 	if len(st.waiting) > 0 && r.Chance(60) {
